@@ -13,6 +13,7 @@ import (
 	"runtime"
 	"strconv"
 	"strings"
+	"sync"
 )
 
 type replayFile struct {
@@ -239,6 +240,8 @@ func RunReplay(entries map[string]func()) {
 // SchedLock(X.TryLock), ...). The schedule is read from the replay file: decision sched_<n> says which
 // goroutine runs after the n-th decision point; a missing decision means "go on" / "lowest id".
 
+var schedTrace = os.Getenv("VERIF_SCHEDTRACE") != ""
+
 type nthread struct {
 	id     int
 	resume chan struct{}
@@ -257,11 +260,45 @@ var ns struct {
 	fatal      any
 }
 
+// goroutines under the scheduler, by runtime goroutine id; any other goroutine (started by a plain go
+// statement of the code under test) runs unscheduled
+var (
+	nsMu sync.Mutex
+	nsG  = map[uint64]bool{}
+)
+
+func goid() uint64 {
+	var buf [64]byte
+	n := runtime.Stack(buf[:], false)
+	f := strings.Fields(string(buf[:n])) // "goroutine 123 [running]:"
+	if len(f) < 2 {
+		return 0
+	}
+	id, _ := strconv.ParseUint(f[1], 10, 64)
+	return id
+}
+
+func scheduled() bool {
+	if ns.threads == nil {
+		return false
+	}
+	nsMu.Lock()
+	defer nsMu.Unlock()
+	return nsG[goid()]
+}
+
+func register() {
+	nsMu.Lock()
+	nsG[goid()] = true
+	nsMu.Unlock()
+}
+
 func nsInit() {
 	if ns.threads == nil {
 		m := &nthread{id: 0, resume: make(chan struct{})}
 		ns.threads = []*nthread{m}
 		ns.cur = m
+		register()
 		ns.maxPreempt = Bound("PREEMPT", 1)
 		ns.maxPicks = Bound("PICKS", 4)
 	}
@@ -288,6 +325,9 @@ func nsPick() *nthread {
 	ns.picks++
 	ns.n++
 	v := Choose(fmt.Sprintf("sched_%d", ns.n), 0, len(o)-1)
+	if schedTrace {
+		fmt.Fprintf(os.Stderr, "SCHED pick #%d by g%d: %d candidates -> %d\n", ns.n, ns.cur.id, len(o), v)
+	}
 	if v < 0 || v >= len(o) {
 		panic(Stop{"schedule-mismatch", "pick out of range"})
 	}
@@ -315,6 +355,7 @@ func Go(f func()) {
 	t := &nthread{id: len(ns.threads), resume: make(chan struct{})}
 	ns.threads = append(ns.threads, t)
 	go func() {
+		register()
 		<-t.resume
 		var next *nthread
 		r := func() (r any) {
@@ -340,7 +381,7 @@ func Go(f func()) {
 
 // SchedPoint: the running goroutine may be pre-empted here.
 func SchedPoint() {
-	if ns.threads == nil || ns.preempts >= ns.maxPreempt {
+	if !scheduled() || ns.preempts >= ns.maxPreempt {
 		return
 	}
 	o := nsOthers()
@@ -349,6 +390,11 @@ func SchedPoint() {
 	}
 	ns.n++
 	v := Choose(fmt.Sprintf("sched_%d", ns.n), 0, len(o))
+	if schedTrace {
+		_, f1, l1, _ := runtime.Caller(1)
+		_, f2, l2, _ := runtime.Caller(2)
+		fmt.Fprintf(os.Stderr, "SCHED point #%d in g%d at %s:%d < %s:%d: %d others -> %d\n", ns.n, ns.cur.id, f1, l1, f2, l2, len(o), v)
+	}
 	if v > 0 {
 		if v > len(o) {
 			panic(Stop{"schedule-mismatch", "switch out of range"})
@@ -359,7 +405,7 @@ func SchedPoint() {
 }
 
 func nsBlock(ready func() bool) {
-	if ns.threads == nil {
+	if !scheduled() {
 		for !ready() {
 			runtime.Gosched()
 		}
@@ -384,7 +430,7 @@ func nsBlock(ready func() bool) {
 
 // Join waits for every goroutine started with Go.
 func Join() {
-	if ns.threads == nil {
+	if !scheduled() {
 		return
 	}
 	me := ns.cur
@@ -402,7 +448,7 @@ func Join() {
 // Whether the goroutine can go on is tested without keeping the lock (other goroutines evaluate the
 // test too); the lock is taken once the goroutine has the baton.
 func SchedLock(try func() bool, unlock func()) {
-	if ns.threads == nil {
+	if !scheduled() {
 		for !try() {
 			runtime.Gosched()
 		}
@@ -427,13 +473,14 @@ func SchedUnlock(unlock func()) {
 	SchedPoint()
 }
 
-// SchedAtomic wraps a value-returning sync/atomic call; SchedAtomic0 follows one that returns nothing.
-func SchedAtomic[T any](v T) T {
+// SchedFn / SchedRecv: a schedule point taken while the function value (atomic.F) or the receiver (typed
+// atomics, sync.Map) of a call is evaluated, i.e. before the operation.
+func SchedFn[F any](f F) F {
 	SchedPoint()
-	return v
+	return f
 }
 
-func SchedAtomic0(f func()) {
-	f()
+func SchedRecv[T any](x T) T {
 	SchedPoint()
+	return x
 }
